@@ -577,7 +577,12 @@ fn op_select_many<T: OrdElem>(cx: &mut Ctx, scn: &Scenario, w: &mut World<T>, op
                     }
                 }
                 if prop == Prop::C18 {
+                    // at most ~24 single calls per bulk call (each may cost O(n^2) on runs of equal elements)
+                    let stride = (pairs.len() + 23) / 24;
                     for (j, (k, v)) in pairs.iter().enumerate() {
+                        if stride > 1 && j % stride != 0 && j + 1 != pairs.len() {
+                            continue;
+                        }
                         // the single call runs on a clone of the world: same layout, same pre-state
                         let mut w2 = World::<T>::build(scn);
                         restore(&mut w2, &before);
@@ -767,7 +772,7 @@ pub fn spread_overflow_possible(ty: ElemTy, lanes_sorted: &[Vec<NumVal>], qs: &[
     if strat.selecting() {
         return false;
     }
-    let int_max = ty.int_range().1;
+    let int_max = ty.spread_max();
     for l in lanes_sorted {
         for &q in qs {
             for c in index_pairs(q, l.len()) {
@@ -872,7 +877,7 @@ fn op_quantile<T: OrdElem>(cx: &mut Ctx, scn: &Scenario, w: &mut World<T>, op: &
             for (j, &q) in op.qs.iter().enumerate() {
                 let got = get(l, j);
                 if let Err(e) = check_quantile(sorted, q, op.strat, got.num()) {
-                    let int_max = ty.int_range().1;
+                    let int_max = ty.spread_max();
                     let ovf = !op.strat.selecting() && index_pairs(q, sorted.len()).iter().any(|c| !spread_representable(sorted[c.lo], sorted[c.hi], int_max));
                     if ovf {
                         cx.known("interp-spread-overflow", format!("{} lane {} request {}: {}", op.name, l, j, e));
@@ -915,7 +920,11 @@ fn op_quantile<T: OrdElem>(cx: &mut Ctx, scn: &Scenario, w: &mut World<T>, op: &
     }
     if prop == Prop::C18 && op.name.starts_with("quantiles") {
         let single = if op.name.ends_with('1') { "quantile1" } else { "quantile_axis" };
+        let stride = (op.qs.len() + 23) / 24;
         for (j, &q) in op.qs.iter().enumerate() {
+            if stride > 1 && j % stride != 0 && j + 1 != op.qs.len() {
+                continue;
+            }
             let mut w2 = World::<T>::build(scn);
             restore(&mut w2, &before);
             let pol = derive_policy(&op.alt, j as u64);
